@@ -3,14 +3,17 @@ import Dalek.Gen.Norm.Avx2Field
 /-! `new`, `split`, `negate_lazy`, `diff_sum`, `reduce`, `neg`, `add` of the AVX2 backend, for ALL integer lane values. -/
 set_option maxRecDepth 100000
 set_option maxHeartbeats 4000000
+set_option linter.unusedSimpArgs false
 namespace Dalek.Proofs.Avx2Field
 open Dalek Dalek.Gen.Norm.Avx2Field Dalek.Proofs.Field26
 
-/-- `new(a, b, c, d)` packs (and weakly reduces) four `FieldElement51`: lane `k` holds the `k`-th argument -/
-theorem new_correct (k : Lane) (a0 a1 a2 a3 a4 b0 b1 b2 b3 b4 c0 c1 c2 c3 c4 d0 d1 d2 d3 d4 : Int) :
+/-- `new(a, b, c, d)` packs (and weakly reduces) four `FieldElement51` with limbs `< 2^54`: lane `k` holds the `k`-th argument -/
+theorem new_correct (k : Lane) (a0 a1 a2 a3 a4 b0 b1 b2 b3 b4 c0 c1 c2 c3 c4 d0 d1 d2 d3 d4 : Int)
+    (hb : Bounded (a0 :: a1 :: a2 :: a3 :: a4 :: b0 :: b1 :: b2 :: b3 :: b4 :: c0 :: c1 :: c2 :: c3 :: c4 :: d0 :: d1 :: d2 :: d3 :: d4 :: []) (List.replicate 20 18014398509481983)) :
     laneVal k (new_fn a0 a1 a2 a3 a4 b0 b1 b2 b3 b4 c0 c1 c2 c3 c4 d0 d1 d2 d3 d4) = val51 k (a0 :: a1 :: a2 :: a3 :: a4 :: b0 :: b1 :: b2 :: b3 :: b4 :: c0 :: c1 :: c2 :: c3 :: c4 :: d0 :: d1 :: d2 :: d3 :: d4 :: []) := by
-  avx_lets new_fn
-  cases k <;> avx_finish
+  simp only [Bounded, List.replicate, List.cons_append, List.nil_append, Nat.cast_ofNat] at hb
+  avx_lets_int new_fn
+  cases k <;> avx_finish_bounded
 
 /-- `split` is the inverse: the `k`-th `FieldElement51` of the result has the value of lane `k` -/
 theorem split_correct (k : Lane) (x0 x1 x2 x3 x4 x5 x6 x7 x8 x9 x10 x11 x12 x13 x14 x15 x16 x17 x18 x19 x20 x21 x22 x23 x24 x25 x26 x27 x28 x29 x30 x31 x32 x33 x34 x35 x36 x37 x38 x39 : Int) :
@@ -30,17 +33,21 @@ theorem diff_sum_correct (k : Lane) (x0 x1 x2 x3 x4 x5 x6 x7 x8 x9 x10 x11 x12 x
   avx_lets diff_sum_fn
   cases k <;> avx_finish
 
-/-- `reduce` (the 32-bit carry chain) preserves the four values -/
-theorem reduce_correct (k : Lane) (x0 x1 x2 x3 x4 x5 x6 x7 x8 x9 x10 x11 x12 x13 x14 x15 x16 x17 x18 x19 x20 x21 x22 x23 x24 x25 x26 x27 x28 x29 x30 x31 x32 x33 x34 x35 x36 x37 x38 x39 : Int) :
+/-- `reduce` (the 32-bit carry chain) preserves the four values, for any forty u32 lanes -/
+theorem reduce_correct (k : Lane) (x0 x1 x2 x3 x4 x5 x6 x7 x8 x9 x10 x11 x12 x13 x14 x15 x16 x17 x18 x19 x20 x21 x22 x23 x24 x25 x26 x27 x28 x29 x30 x31 x32 x33 x34 x35 x36 x37 x38 x39 : Int)
+    (hb : Bounded (x0 :: x1 :: x2 :: x3 :: x4 :: x5 :: x6 :: x7 :: x8 :: x9 :: x10 :: x11 :: x12 :: x13 :: x14 :: x15 :: x16 :: x17 :: x18 :: x19 :: x20 :: x21 :: x22 :: x23 :: x24 :: x25 :: x26 :: x27 :: x28 :: x29 :: x30 :: x31 :: x32 :: x33 :: x34 :: x35 :: x36 :: x37 :: x38 :: x39 :: []) (List.replicate 40 4294967295)) :
     laneVal k (reduce_fn x0 x1 x2 x3 x4 x5 x6 x7 x8 x9 x10 x11 x12 x13 x14 x15 x16 x17 x18 x19 x20 x21 x22 x23 x24 x25 x26 x27 x28 x29 x30 x31 x32 x33 x34 x35 x36 x37 x38 x39) = laneVal k (x0 :: x1 :: x2 :: x3 :: x4 :: x5 :: x6 :: x7 :: x8 :: x9 :: x10 :: x11 :: x12 :: x13 :: x14 :: x15 :: x16 :: x17 :: x18 :: x19 :: x20 :: x21 :: x22 :: x23 :: x24 :: x25 :: x26 :: x27 :: x28 :: x29 :: x30 :: x31 :: x32 :: x33 :: x34 :: x35 :: x36 :: x37 :: x38 :: x39 :: []) := by
-  avx_lets reduce_fn
-  cases k <;> avx_finish
+  simp only [Bounded, List.replicate, List.cons_append, List.nil_append, Nat.cast_ofNat] at hb
+  avx_lets_int reduce_fn
+  cases k <;> avx_finish_bounded
 
-/-- `-x`: `16p − x` lane-wise, then `reduce` -/
-theorem neg_correct (k : Lane) (x0 x1 x2 x3 x4 x5 x6 x7 x8 x9 x10 x11 x12 x13 x14 x15 x16 x17 x18 x19 x20 x21 x22 x23 x24 x25 x26 x27 x28 x29 x30 x31 x32 x33 x34 x35 x36 x37 x38 x39 : Int) :
+/-- `-x`: `16p − x` lane-wise, then `reduce`; every lane `≤` the corresponding lane of `(16p,16p,16p,16p)` -/
+theorem neg_correct (k : Lane) (x0 x1 x2 x3 x4 x5 x6 x7 x8 x9 x10 x11 x12 x13 x14 x15 x16 x17 x18 x19 x20 x21 x22 x23 x24 x25 x26 x27 x28 x29 x30 x31 x32 x33 x34 x35 x36 x37 x38 x39 : Int)
+    (hb : Bounded (x0 :: x1 :: x2 :: x3 :: x4 :: x5 :: x6 :: x7 :: x8 :: x9 :: x10 :: x11 :: x12 :: x13 :: x14 :: x15 :: x16 :: x17 :: x18 :: x19 :: x20 :: x21 :: x22 :: x23 :: x24 :: x25 :: x26 :: x27 :: x28 :: x29 :: x30 :: x31 :: x32 :: x33 :: x34 :: x35 :: x36 :: x37 :: x38 :: x39 :: []) p16Lanes) :
     laneVal k (neg_fn x0 x1 x2 x3 x4 x5 x6 x7 x8 x9 x10 x11 x12 x13 x14 x15 x16 x17 x18 x19 x20 x21 x22 x23 x24 x25 x26 x27 x28 x29 x30 x31 x32 x33 x34 x35 x36 x37 x38 x39) = - laneVal k (x0 :: x1 :: x2 :: x3 :: x4 :: x5 :: x6 :: x7 :: x8 :: x9 :: x10 :: x11 :: x12 :: x13 :: x14 :: x15 :: x16 :: x17 :: x18 :: x19 :: x20 :: x21 :: x22 :: x23 :: x24 :: x25 :: x26 :: x27 :: x28 :: x29 :: x30 :: x31 :: x32 :: x33 :: x34 :: x35 :: x36 :: x37 :: x38 :: x39 :: []) := by
-  avx_lets neg_fn
-  cases k <;> avx_finish
+  simp only [Bounded, List.replicate, List.cons_append, List.nil_append, Nat.cast_ofNat, p16Lanes, Dalek.Gen.Consts.Avx2.P_TIMES_16_LO, Dalek.Gen.Consts.Avx2.P_TIMES_16_HI] at hb
+  avx_lets_int neg_fn
+  cases k <;> avx_finish_bounded
 
 /-- `x + y` lane-wise -/
 theorem add_correct (k : Lane) (x0 x1 x2 x3 x4 x5 x6 x7 x8 x9 x10 x11 x12 x13 x14 x15 x16 x17 x18 x19 x20 x21 x22 x23 x24 x25 x26 x27 x28 x29 x30 x31 x32 x33 x34 x35 x36 x37 x38 x39 y0 y1 y2 y3 y4 y5 y6 y7 y8 y9 y10 y11 y12 y13 y14 y15 y16 y17 y18 y19 y20 y21 y22 y23 y24 y25 y26 y27 y28 y29 y30 y31 y32 y33 y34 y35 y36 y37 y38 y39 : Int) :
